@@ -259,13 +259,21 @@ class MediaFile(ModelMixin["MediaFile"], Base):
             return False
         missing_duration = [
             str(idx) for idx, seg in enumerate(rep.segments)
-            if idx > 0 and seg.duration is None]
-        if missing_duration or not rep.codecs:
-            if missing_duration:
-                details = ('Failed to detect the duration of segment ' +
-                           ', '.join(missing_duration))
-            else:
-                details = 'Failed to detect the codec'
+            if idx > 0 and not seg.duration]
+        details: str | None = None
+        if missing_duration:
+            details = ('Failed to detect the duration of segment ' +
+                       ', '.join(missing_duration))
+        elif not rep.codecs:
+            details = 'Failed to detect the codec'
+        elif not rep.timescale or rep.timescale < 0:
+            details = f'Invalid timescale {rep.timescale}'
+        else:
+            try:
+                rep.media_duration_timedelta()
+            except (OverflowError, ValueError) as dur_err:
+                details = f'Invalid media duration: {dur_err}'
+        if details is not None:
             err = MediaFileError(
                 media_file=self,
                 reason=ErrorReason.NO_FRAGMENTS,
